@@ -2,8 +2,10 @@
 use crate::driver::ClassSpec;
 use crate::sc_agg::AGG;
 use crate::sc_codec::CODEC;
+use crate::sc_compat::COMPAT;
 use crate::sc_crypt::CRYPT;
 use crate::sc_entropy::ENTROPY;
+use crate::sc_ident::IDENT;
 use crate::sc_pok::POK;
 use crate::sc_sign::SIGN;
 use crate::sc_thresh::THRESH;
@@ -19,7 +21,10 @@ pub struct PropSpec {
 }
 
 fn cs(scenario: &'static dyn crate::driver::Scenario, class: &'static str, quick: u64, thorough: u64, exhaustive: bool) -> ClassSpec {
-    ClassSpec { scenario, class, quick, thorough, exhaustive }
+    ClassSpec { scenario, class, quick, thorough, exhaustive, twin_mode: 0 }
+}
+fn cst(scenario: &'static dyn crate::driver::Scenario, class: &'static str, quick: u64, thorough: u64, twin_mode: u8) -> ClassSpec {
+    ClassSpec { scenario, class, quick, thorough, exhaustive: false, twin_mode }
 }
 
 const COMMON_ASSUMPTIONS: [&str; 3] = [
@@ -82,6 +87,12 @@ pub fn spec(id: &str) -> Option<PropSpec> {
             "cases = (group, key class, seed length, message-length class, scheme, aggregate size, repeated-message flag); the reference implementation is a peer: byte equality of KeyGen / SkToPk / CoreSign x3 / PopProve / Aggregate and mutual acceptance; \
              no schedule or fault influences this property (stated in DESIGN.md): non-trivial counts cases with edge keys, seeds shorter than 32 bytes or repeated aggregate messages",
             vec!["cur-blst", "ref (draft tags)"],
+        )),
+        "C04" => Some(base(
+            vec![cs(&IDENT, "family", 24, 240, false), cs(&IDENT, "agg-positions", 60, 63 * 6 * 3, false)],
+            "cases = (entry point, which point-/scalar-typed argument is the identity / zero, with which companion values that make the pairing equation hold trivially, scheme, group) — about 90 cases per (scheme, group), enumerated completely in every `family` run (runs differ in message and key); \
+             `agg-positions` inserts an identity-key pair into a valid aggregate list at first / middle / last / random positions with its own, a neighbour's or another signer's message for n in 2..=64; all cases non-trivial",
+            vec!["cur-blst"],
         )),
         "C05" => Some(base(
             vec![cs(&SIGN, "relabel", 400, 6000, false), cs(&SIGN, "tags", 1, 1, true)],
@@ -177,6 +188,69 @@ pub fn spec(id: &str) -> Option<PropSpec> {
                 vec!["cur-blst (release)", "cur-blst (checked: debug-assertions + overflow-checks)"],
             )
         }),
+        "C18" => {
+            let mut v = vec![cs(&COMPAT, "golden", 8, 8, true), cs(&COMPAT, "ref-interop", 600, 12000, false)];
+            // mixed-version cluster: 3 = working tree serves, pinned release mirrors (new-made artefacts consumed by the old
+            // release); 4 = pinned release serves, working tree mirrors (old-made artefacts consumed by the new tree)
+            for mode in [3u8, 4] {
+                v.push(cst(&SIGN, "grid", 120, 648, mode));
+                v.push(cst(&SIGN, "retry-restart", 60, 1200, mode));
+                v.push(cst(&SIGN, "registry", 30, 600, mode));
+                v.push(cst(&CRYPT, "sc-roundtrip", 150, 3000, mode));
+                v.push(cst(&CRYPT, "td-protocol", 60, 1200, mode));
+                v.push(cst(&CRYPT, "tl-beacon", 60, 1200, mode));
+                v.push(cst(&CRYPT, "eg-tally", 60, 1200, mode));
+                v.push(cst(&CRYPT, "eg-proof-tamper", 60, 1200, mode));
+                v.push(cst(&AGG, "agg-protocol", 40, 800, mode));
+                v.push(cst(&AGG, "multi-protocol", 40, 800, mode));
+                v.push(cst(&THRESH, "clean", 40, 800, mode));
+                v.push(cst(&THRESH, "faulty", 40, 800, mode));
+                v.push(cst(&POK, "interactive", 60, 1200, mode));
+                v.push(cst(&POK, "ts-clock", 120, 2400, mode));
+                v.push(cst(&CODEC, "vault", 6, 60, mode));
+            }
+            Some(base(
+                v,
+                "cases = golden records (every exported type x scheme variant x edge value x codec x group x 4 payload sizes, written by the vendored pinned flavour under a fixed entropy seed and checked against a committed digest) decoded and re-encoded on the working tree after a restart on that disk; \
+                 reference interop tuples (group, scheme, message length) for signcryption, time-lock, both PoK variants and the ElGamal transcript in both directions; and every library call of the honest-path scenario classes mirrored on the pinned release in a mixed-version cluster, both directions (deterministic outputs byte-equal, every artefact made by one accepted with the same result by the other). All cases non-trivial (two implementations or two versions involved).",
+                vec!["cur-blst", "pinned (vendored release @4bdca94)", "ref (draft tags + documented own-protocol strings)"],
+            ))
+        }
+        "C19" => {
+            let mut v = vec![];
+            for mode in [1u8, 2] {
+                v.push(cst(&SIGN, "grid", 80, 648, mode));
+                v.push(cst(&SIGN, "tamper", 150, 3000, mode));
+                v.push(cst(&SIGN, "relabel", 10, 200, mode));
+                v.push(cst(&SIGN, "interop", 60, 1200, mode));
+                v.push(cst(&SIGN, "registry", 20, 400, mode));
+                v.push(cst(&CRYPT, "sc-roundtrip", 80, 1600, mode));
+                v.push(cst(&CRYPT, "sc-tamper", 80, 1600, mode));
+                v.push(cst(&CRYPT, "tl-tamper", 80, 1600, mode));
+                v.push(cst(&CRYPT, "td-protocol", 30, 600, mode));
+                v.push(cst(&CRYPT, "tl-beacon", 30, 600, mode));
+                v.push(cst(&CRYPT, "eg-tally", 30, 600, mode));
+                v.push(cst(&CRYPT, "eg-proof-tamper", 40, 800, mode));
+                v.push(cst(&AGG, "agg-protocol", 20, 400, mode));
+                v.push(cst(&AGG, "multi-protocol", 20, 400, mode));
+                v.push(cst(&THRESH, "clean", 20, 400, mode));
+                v.push(cst(&THRESH, "byzantine", 30, 600, mode));
+                v.push(cst(&THRESH, "large", 2, 16, mode));
+                v.push(cst(&POK, "interactive-tamper", 40, 800, mode));
+                v.push(cst(&POK, "ts-clock", 80, 1600, mode));
+                v.push(cst(&POK, "ts-tamper", 60, 1200, mode));
+                v.push(cst(&CODEC, "vault", 4, 40, mode));
+                v.push(cst(&CODEC, "byz-encoder", 2, 20, mode));
+                v.push(cst(&CODEC, "random-bytes", 8, 160, mode));
+                v.push(cst(&CODEC, "hostile-scalars", 2, 2, mode));
+                v.push(cst(&IDENT, "family", 6, 60, mode));
+            }
+            Some(base(
+                v,
+                "cases = every library call of every scenario class (honest paths, tamper / Byzantine / hostile-input classes) executed by twin parties, one per arithmetic back end, in a mixed-backend cluster: mode 1 = the blst build serves and the pure-Rust build mirrors every request, mode 2 = the reverse. Deterministic operations must return byte-identical results (or both refuse); randomized artefacts (ciphertexts, proofs, share sets) made by the serving build are consumed by the mirroring build in the following calls with identical plaintext / verdict. All cases non-trivial (two configurations involved).",
+                vec!["cur-blst", "cur-rust"],
+            ))
+        }
         "C20" => Some(PropSpec {
             needs_entropy: true,
             needs_clock: true,
